@@ -552,7 +552,23 @@ func (p *Prog) Variant(level int) *Prog {
 		for _, f := range all {
 			got := ssa.InlineStaticCalls(f, func(site *ssa.Call, callee *ssa.Function) bool {
 				mc, ok := site.Call.Value.(*ssa.MakeClosure)
-				return ok && callee.Parent() != nil && mc.Referrers() != nil && len(*mc.Referrers()) == 1
+				if !ok || callee.Parent() == nil || mc.Referrers() == nil {
+					return false
+				}
+				// every use of the literal is a direct call of it (one or several sites, e.g. the visit
+				// closure of an inlined iteration helper that calls it in two loops)
+				for _, r := range *mc.Referrers() {
+					c, isCall := r.(*ssa.Call)
+					if !isCall || c.Call.Value != ssa.Value(mc) {
+						return false
+					}
+					for _, a := range c.Call.Args {
+						if a == ssa.Value(mc) {
+							return false
+						}
+					}
+				}
+				return true
 			}, 2)
 			n += len(got)
 			if len(got) > 0 {
